@@ -12,7 +12,10 @@ field that a conversion writes, except the balanced `leak`*.  `Props/C12.lean` p
                      through one-level aliases);
 * `resetWrites`, `resetCalls`, `registerExtensionCalls`   what the `reset` methods re-initialise, what
                      `Markdown.reset` calls, which extensions register themselves to be reset;
-* `sharedWrites`, `memoDecorators`   every write *inside a function body* to module-level or class-level state.
+* `sharedWrites`, `memoDecorators`   every write *inside a function body* to module-level or class-level state,
+                     including in-place mutation through `self` (`self.X += …`, `self.X.append(…)`, `self.X[k] = …`,
+                     in any method, `__init__` included) of a name bound in a class body of the class, of a base class
+                     or of a subclass (`classHierarchy`, `classLevelMutable`).
 
 This file classifies every entry.  The theorems are `decide`d over the generated lists, so a change of the source
 that adds conversion-time state which `reset()` forgets, or a run-time write to shared state, makes this file fail to
@@ -229,9 +232,9 @@ theorem C11_allow_lists_not_stale :
 
 /-- (file, function, target) -/
 def sharedAllow : List (String × String × String) := [
-  -- `Extension.setConfig`: `self.config[key][0] = value`.  `config` is bound in the class body of `Extension` (`{}`),
-  -- hence the entry.  Every bundled extension assigns `self.config = {…}` in its `__init__` before
-  -- `super().__init__`, so the dict that is written is the instance's own; on the bare class-level `{}` the write
+  -- `Extension.setConfig`: `self.config[key][0] = value`.  `config` is bound in the class body of `Extension` (`{}`)
+  -- and `Extension.__init__` does not assign `self.config`, hence the entry.  Every bundled extension assigns
+  -- `self.config = {…}` in its own `__init__` before `super().__init__`, so the dict that is written is the instance's own; on the bare class-level `{}` the write
   -- raises `KeyError` before it writes.  Configuration time only.  SUSPICIOUS for third-party extensions that
   -- follow the docstring of `Extension.config` literally (`config = {…}` in the class body): then constructing one
   -- instance with options changes the defaults of every later instance of that extension.
@@ -247,6 +250,27 @@ theorem C12_no_unlisted_shared_write : ∀ w ∈ sharedWrites, w ∈ sharedAllow
     `memo` cell of `Model/Threads.lean`; `f` is `metadata.entry_points(group='markdown.extensions')`. -/
 theorem C12_memo_cells : memoDecorators =
     [("markdown/util.py", "get_installed_extensions", "lru_cache(maxsize=None)")] := by decide +kernel
+
+/-- base classes that are not classes of the package (builtins, `typing`, `html.parser`, `unittest`) -/
+def externalBases : List String :=
+  ["str", "list", "dict", "type", "NamedTuple", "TypedDict", "Generic[_T]", "htmlparser.HTMLParser", "unittest.TestCase"]
+
+/-- **the class hierarchy is resolved.**  "Through `self`" needs to know the base classes: `sharedWrites` contains
+    every in-place mutation `self.X += …` / `self.X.append(…)` / `self.X[k] = …` (in any method, `__init__` included)
+    of a name `X` that is bound in the class body of the class, of one of its base classes or of a subclass inside the
+    package, unless `self.X = …` makes the object instance-owned first.  Base classes are resolved through the imports
+    of the defining module (`from ..blockprocessors import ListIndentProcessor`, `util.Processor`); a base that the
+    translator calls `external` must be one of `externalBases`.  (The class-level containers of the unchanged tree,
+    `Generated.Census.classLevelMutable`: `ListIndentProcessor.{ITEM_TYPES, LIST_TYPES}` and their overrides in
+    `DefListIndentProcessor`, `OListProcessor.SIBLING_TAGS` and its overrides in `sane_lists`, the `PATTERNS` of the
+    emphasis processors, `Markdown.output_formats`, `Extension.config`; the code only reads them.) -/
+theorem C12_external_bases : ∀ h ∈ classHierarchy, h.2.2.2 = "external" → h.2.2.1 ∈ externalBases := by
+  decide +kernel
+
+/-- every class that is named as a base class and is defined in the package has been found in the package (no base
+    is called `external` while a class of that name exists in the package) -/
+theorem C12_no_package_class_unresolved : ∀ h ∈ classHierarchy, h.2.2.2 = "external" →
+    classes.all (fun c => c.1 != h.2.2.1) = true := by decide +kernel
 
 theorem C12_shared_allow_not_stale : ∀ w ∈ sharedAllow, w ∈ sharedWrites := by decide +kernel
 
